@@ -236,6 +236,10 @@ End Limit.
 Definition read_reply_run (limit : N) (c : conn) : rr :=
   read_reply limit (read_reply_fuel c) (mkR None None) c.
 
+(* what the byte stream alone determines (reference for read_reply_run) *)
+Definition reply_of_stream (limit : N) (s : list N) : rrs :=
+  read_reply_spec limit (S (S (length s))) (mkR None None) s.
+
 (* ------------------------------------------------------------------ *)
 (* util.parse_address (after the F25 fix), on ASCII text               *)
 (* ------------------------------------------------------------------ *)
@@ -347,12 +351,38 @@ Definition dec (n : N) : list N := uint_digits (N.to_uint n).
 Inductive event :=
 | EvWrite (bs : list N)                      (* one Connection.write on the control connection *)
 | EvReply (code : N)                         (* ControlStream.read_reply returned *)
+| EvRestart (offset : N)                     (* response.restart_value = offset: the server accepted REST *)
 | EvDataOpen (addr : list N) (port : N)      (* data connection requested from the pool *)
 | EvData (chunk : list N)                    (* DataStream.read_file got a chunk *)
 | EvDataEof                                  (* ... got b'': the data connection reached EOF *)
 | EvDataClose.                               (* data_stream.close() after the 226 *)
 
-Record sess := mkSess { s_ctrl : conn; s_data : conn; s_tr : list event }.
+(* s_net is the ARRIVAL SCHEDULE, the interleaving oracle of the two
+   connections.  The client is one asyncio task; whenever it is suspended
+   (drain after a write, every wait inside readline / read, pool acquire and
+   connect of the data connection) the event loop may feed bytes that arrived
+   on EITHER connection into that connection's StreamReader buffer, whether or
+   not the client is waiting for that connection - this is how a "226" can sit
+   in the control buffer long before the data connection reaches EOF, or data
+   can be buffered before RETR is even answered.  One element (a, b) of s_net
+   is consumed at every primitive step of the session (after each command
+   write, before each read_reply, at the opening of the data connection,
+   before each read(4096) of the data connection): a more bytes of the control
+   stream and b more bytes of the data stream move from the wire into the
+   buffers.  Arrivals DURING a primitive on the connection that primitive does
+   not touch are indistinguishable from arrivals right after it (the primitive
+   never looks at the other connection), and arrivals on the connection it
+   waits for are the segmentation oracle c_sched of that connection.  An
+   exhausted schedule means no spontaneous arrivals.  Quantifying over s_net,
+   both c_sched and both c_buf quantifies over every interleaving of control
+   and data arrival events with the client's steps. *)
+Record sess := mkSess { s_ctrl : conn; s_data : conn; s_tr : list event; s_net : list (nat * nat) }.
+
+Definition arrive (s : sess) : sess :=
+  match s_net s with
+  | [] => s
+  | (a, b) :: r => mkSess (push a (s_ctrl s)) (push b (s_data s)) (s_tr s) r
+  end.
 
 Inductive res (A : Type) :=
 | Ok (a : A)
@@ -380,7 +410,9 @@ Definition catch_server {A} (m : M A) (h : N -> M A) : M A :=
            end.
 
 Definition emit (ev : event) : M unit :=
-  fun s => (mkSess (s_ctrl s) (s_data s) (s_tr s ++ [ev]), Ok tt).
+  fun s => (mkSess (s_ctrl s) (s_data s) (s_tr s ++ [ev]) (s_net s), Ok tt).
+
+Definition arrive_m : M unit := fun s => (arrive s, Ok tt).
 
 (* Python `a or b or default` on str / None *)
 Definition nonempty (l : list N) : bool := match l with [] => false | _ :: _ => true end.
@@ -411,22 +443,28 @@ Record request := mkReq {
   q_listing : bool                  (* start_listing instead of start *)
 }.
 
+(* Session._log_in: the two login values *)
+Definition req_user (q : request) : list N := pick (q_url_user q) (q_req_user q) anonymous.
+Definition req_pass (q : request) : list N := pick (q_url_pass q) (q_req_pass q) default_password.
+
 Section Session.
   Variable limit : N.
 
-  (* ControlStream.write_command *)
+  (* ControlStream.write_command: to_bytes, Connection.write (writer.write, then
+     drain: a suspension point) *)
   Definition write_command (name arg : list N) : M unit :=
     fun s => match to_bytes name arg with
-             | CmdOk b => (mkSess (s_ctrl s) (s_data s) (s_tr s ++ [EvWrite b]), Ok tt)
+             | CmdOk b => (arrive (mkSess (s_ctrl s) (s_data s) (s_tr s ++ [EvWrite b]) (s_net s)), Ok tt)
              | CmdProtocolErr => (s, Err EProtocol)
              | CmdEncodeErr => (s, Err EEncode)
              end.
 
   (* ControlStream.read_reply *)
   Definition read_reply_m : M (N * list N) :=
-    fun s => match read_reply_run limit (s_ctrl s) with
-             | RROk code text c' => (mkSess c' (s_data s) (s_tr s ++ [EvReply code]), Ok (code, text))
-             | RRErr e => (s, Err e)
+    fun s => let s0 := arrive s in
+             match read_reply_run limit (s_ctrl s0) with
+             | RROk code text c' => (mkSess c' (s_data s0) (s_tr s0 ++ [EvReply code]) (s_net s0), Ok (code, text))
+             | RRErr e => (s0, Err e)
              end.
 
   (* Commander.raise_if_not_match *)
@@ -448,15 +486,15 @@ Section Session.
       expect_code [230] r2.
 
   (* Session._log_in *)
+  Definition cache_hit (q : request) (cached : option (list N * list N)) : bool :=
+    match cached with
+    | Some (u, p) => list_eqb u (req_user q) && list_eqb p (req_pass q)
+    | None => false
+    end.
+
   Definition log_in (q : request) (cached : option (list N * list N)) : M unit :=
-    let user := pick (q_url_user q) (q_req_user q) anonymous in
-    let pass := pick (q_url_pass q) (q_req_pass q) default_password in
-    let reuse := match cached with
-                 | Some (u, p) => list_eqb u user && list_eqb p pass
-                 | None => false
-                 end in
-    if reuse then ret tt
-    else catch_server (login user pass) (fun _ => raise EAuth).
+    if cache_hit q cached then ret tt
+    else catch_server (login (req_user q) (req_pass q)) (fun _ => raise EAuth).
 
   (* Session._prepare_fetch; fresh = the control connection was closed *)
   Definition prepare_fetch (q : request) (fresh : bool) (cached : option (list N * list N)) : M unit :=
@@ -468,17 +506,25 @@ Section Session.
     catch_server (write_command SIZE path ;;; r <- read_reply_m ;; expect_code [213] r)
                  (fun _ => ret tt).
 
-  (* Commander.restart inside Session.start's try/except FTPServerError *)
-  Definition try_restart (offset : option N) : M unit :=
-    match offset with
-    | None => ret tt
-    | Some n =>
-        if n =? 0 then ret tt
-        else catch_server (write_command REST (dec n) ;;; r <- read_reply_m ;; expect_code [350] r)
-                          (fun _ => ret tt)
+  (* Commander.restart inside Session.start's try/except FTPServerError; on 350
+     response.restart_value is set *)
+  Definition restart_offset (q : request) : option N :=
+    match q_restart q with
+    | None => None
+    | Some n => if n =? 0 then None else Some n
     end.
 
-  (* Commander.setup_data_stream + passive_mode *)
+  Definition try_restart (q : request) : M unit :=
+    match restart_offset q with
+    | None => ret tt
+    | Some n =>
+        catch_server (write_command REST (dec n) ;;; r <- read_reply_m ;; expect_code [350] r ;;;
+                      emit (EvRestart n))
+                     (fun _ => ret tt)
+    end.
+
+  (* Commander.setup_data_stream + passive_mode; acquiring and connecting the
+     data connection suspends *)
   Definition open_data_stream : M unit :=
     write_command TYPE_ [73] ;;;
     r <- read_reply_m ;;
@@ -488,7 +534,7 @@ Section Session.
     expect_code [227] r2 ;;;
     match parse_address (snd r2) with
     | None => raise EProtocol
-    | Some (addr, port) => emit (EvDataOpen addr port)
+    | Some (addr, port) => emit (EvDataOpen addr port) ;;; arrive_m
     end.
 
   (* Commander.begin_stream *)
@@ -501,7 +547,7 @@ Section Session.
   Definition start (q : request) (fresh : bool) (cached : option (list N * list N)) : M unit :=
     prepare_fetch q fresh cached ;;;
     fetch_size (q_path q) ;;;
-    try_restart (q_restart q) ;;;
+    try_restart q ;;;
     open_data_stream ;;;
     begin_stream RETR (q_path q).
 
@@ -514,17 +560,32 @@ Section Session.
                               then begin_stream LIST_ (q_path q)
                               else raise (EServer code)).
 
+  (* DataStream.read_file: read(4096) until b''; every read is a suspension
+     point (Connection.read runs the read as a network operation) *)
+  Fixpoint read_file (fuel : nat) (s : sess) : option sess :=
+    match fuel with
+    | O => None
+    | S f =>
+        let s1 := arrive s in
+        let '(d, c1) := conn_read 4096 (s_data s1) in
+        match d with
+        | [] => Some (mkSess (s_ctrl s1) c1 (s_tr s1 ++ [EvDataEof]) (s_net s1))
+        | _ :: _ => read_file f (mkSess (s_ctrl s1) c1 (s_tr s1 ++ [EvData d]) (s_net s1))
+        end
+    end.
+
+  Definition read_file_fuel (s : sess) : nat := S (S (length (stream (s_data s)))).
+
   (* Commander.read_stream (called by Session.download): the data connection is
      read to EOF FIRST, then the closing reply is read and must be 226 *)
   Definition read_stream : M (N * list N) :=
-    fun s => match read_file 4096 (read_file_fuel (s_data s)) (s_data s) with
+    fun s => match read_file (read_file_fuel s) s with
              | None => (s, Err EFuel)
-             | Some (chunks, d') =>
+             | Some s1 =>
                  (r <- read_reply_m ;;
                   expect_code [226] r ;;;
                   emit EvDataClose ;;;
-                  ret r)
-                   (mkSess (s_ctrl s) d' (s_tr s ++ map EvData chunks ++ [EvDataEof]))
+                  ret r) s1
              end.
 
   (* one visit: start / start_listing, then download; Ok = the transfer is
@@ -533,6 +594,44 @@ Section Session.
     (if q_listing q then start_listing q fresh cached else start q fresh cached) ;;;
     read_stream.
 End Session.
+
+(* ------------------------------------------------------------------ *)
+(* reference: the command sequence of a session                        *)
+(* ------------------------------------------------------------------ *)
+(* A command is (NAME, argument text).  nlogin = how many of USER / PASS are
+   sent (0 = cached login reused, 1 = the server answered USER with 230),
+   fallback = MLSD was answered 500 / 502 and LIST is tried. *)
+Definition cmd : Type := (list N * list N)%type.
+
+Definition login_plan (q : request) (nlogin : nat) : list cmd :=
+  firstn nlogin [(USER, req_user q); (PASS, req_pass q)].
+
+Definition rest_plan (q : request) : list cmd :=
+  match restart_offset q with Some n => [(REST, dec n)] | None => [] end.
+
+Definition body_plan (q : request) (fallback : bool) : list cmd :=
+  if q_listing q
+  then [(TYPE_, [73]); (PASV, []); (MLSD, q_path q)] ++ (if fallback then [(LIST_, q_path q)] else [])
+  else [(SIZE, q_path q)] ++ rest_plan q ++ [(TYPE_, [73]); (PASV, []); (RETR, q_path q)].
+
+Definition session_plan (q : request) (nlogin : nat) (fallback : bool) : list cmd :=
+  login_plan q nlogin ++ body_plan q fallback.
+
+(* the bytes of one command on the wire *)
+Definition wire_of (c : cmd) (bs : list N) : Prop :=
+  exists a, utf8_se (snd c) = Some a /\ bs = fst c ++ 32 :: a ++ [13; 10].
+
+Definition writes_of (tr : list event) : list (list N) :=
+  flat_map (fun ev => match ev with EvWrite b => [b] | _ => [] end) tr.
+
+(* value of a decimal digit string *)
+Definition undec (l : list N) : N := fold_left (fun acc d => acc * 10 + (d - 48)) l 0.
+
+(* what an observer who does not see the chunking of the data stream sees *)
+Definition data_of (tr : list event) : list N :=
+  flat_map (fun ev => match ev with EvData d => d | _ => [] end) tr.
+Definition control_of (tr : list event) : list event :=
+  filter (fun ev => match ev with EvData _ => false | _ => true end) tr.
 
 (* ------------------------------------------------------------------ *)
 (* reference: RFC 959 reply shapes                                     *)
@@ -673,6 +772,7 @@ Definition event_eqb (a b : event) : bool :=
   match a, b with
   | EvWrite x, EvWrite y => list_eqb x y
   | EvReply x, EvReply y => x =? y
+  | EvRestart x, EvRestart y => x =? y
   | EvDataOpen a1 p1, EvDataOpen a2 p2 => list_eqb a1 a2 && (p1 =? p2)
   | EvData x, EvData y => list_eqb x y
   | EvDataEof, EvDataEof | EvDataClose, EvDataClose => true
@@ -680,8 +780,8 @@ Definition event_eqb (a b : event) : bool :=
   end.
 
 Definition check_visit (limit : N) (q : request) (fresh : bool) (cached : option (list N * list N))
-           (ctrl data : conn) (events : list event) (outcome : res (N * list N)) : bool :=
-  let '(s', r) := visit limit q fresh cached (mkSess ctrl data []) in
+           (ctrl data : conn) (net : list (nat * nat)) (events : list event) (outcome : res (N * list N)) : bool :=
+  let '(s', r) := visit limit q fresh cached (mkSess ctrl data [] net) in
   lists_eqb event_eqb (s_tr s') events
   && match r, outcome with
      | Ok (c1, t1), Ok (c2, t2) => (c1 =? c2) && list_eqb t1 t2
